@@ -363,4 +363,92 @@ theorem strTok_progress {kind : String} {off total : Nat} {r : Except Err (Bytes
     exact ⟨v, r', rfl, rfl⟩
   · cases h
 
+/-- on a non-empty rest of the buffer every token the scanner returns consumes at least one byte and
+ends inside the buffer -/
+theorem scanTokenAt_progress (s : Bytes) (t : Tok) (h : scanTokenAt s = .tok t) (hne : s ≠ []) :
+    0 < t.extent ∧ t.extent ≤ s.length := by
+  cases s with
+  | nil => exact absurd rfl hne
+  | cons b rest =>
+    unfold scanTokenAt at h
+    simp only at h
+    by_cases h1 : b = SP ∨ b = TAB
+    · -- SPACE starting with a blank or a tab
+      rw [if_pos h1] at h
+      have hsl : spaceLike (b :: rest) = true := by
+        rcases h1 with rfl | rfl <;> simp [spaceLike]
+      split at h
+      · rename_i n hn
+        simp only [Res.tok.injEq] at h
+        subst h
+        exact ⟨by simpa [Tok.extent] using spaceLen_pos _ _ hsl hn, by simpa [Tok.extent] using spaceLen_le _ _ hn⟩
+      · cases h
+    · rw [if_neg h1] at h
+      by_cases h2 : b = SL
+      · rw [if_pos h2] at h
+        cases rest with
+        | nil => simp [one] at h; subst h; simp [Tok.extent]
+        | cons c rest' =>
+          simp only at h
+          by_cases h3 : c = Tokenizer.ST ∨ c = SL
+          · rw [if_pos h3] at h
+            have hsl : spaceLike (b :: c :: rest') = true := by
+              subst h2
+              rcases h3 with rfl | rfl <;> simp [spaceLike]
+            split at h
+            · rename_i n hn
+              simp only [Res.tok.injEq] at h
+              subst h
+              subst h2
+              exact ⟨by simpa [Tok.extent] using spaceLen_pos _ _ hsl hn, by simpa [Tok.extent] using spaceLen_le _ _ hn⟩
+            · cases h
+          · rw [if_neg h3] at h
+            simp [one] at h; subst h; simp [Tok.extent]
+      · rw [if_neg h2] at h
+        split at h
+        · -- identifier / keyword
+          simp only [Res.tok.injEq] at h
+          subst h
+          have := identLen_le rest
+          simp [Tok.extent]; omega
+        · split at h
+          · -- integer
+            split at h
+            · rename_i n v hn
+              simp only [Res.tok.injEq] at h
+              subst h
+              have hb := intScan_bound (b :: rest) 0 0 hn
+              rename_i hnum _
+              have hpos : 0 < n := by
+                simp only [intScan, hnum, if_true] at hn
+                have := intScan_bound rest 1 _ hn
+                omega
+              simp [Tok.extent] at hb ⊢; omega
+            · cases h
+          · -- strings, interpolated strings, punctuation
+            split at h
+            · obtain ⟨v, r', hscan, hext⟩ := strTok_progress h
+              have := scanStr_rest_lt _ hscan
+              simp at hext ⊢; omega
+            · split at h
+              · obtain ⟨v, r', hscan, hext⟩ := strTok_progress h
+                have := scanRaw_rest_lt _ hscan
+                simp at hext ⊢; omega
+              · split at h
+                · cases rest with
+                  | nil => cases h
+                  | cons c rest' =>
+                    simp only at h
+                    split at h
+                    · obtain ⟨v, r', hscan, hext⟩ := strTok_progress h
+                      have := scanStr_rest_lt _ hscan
+                      simp at hext ⊢; omega
+                    · split at h
+                      · obtain ⟨v, r', hscan, hext⟩ := strTok_progress h
+                        have := scanRaw_rest_lt _ hscan
+                        simp at hext ⊢; omega
+                      · cases h
+                · have := scanPunct_progress b rest t h
+                  simpa using this
+
 end Folang.Tokenizer
